@@ -62,7 +62,8 @@ class ChannelList(gpp.UGenSequence, aob.AbstractSequence, list):
         return utl.list_sum(self, type(self))
 
     def madd(self, mul=1.0, add=0.0):
-        return type(self)(MulAdd.new(i, mul, add) for i in self)
+        return type(self)(
+            MulAdd.new(*i) for i in utl.flop([self, mul, add]))
 
     # in SequenceableCollection L1148.
 
